@@ -1,6 +1,6 @@
 SPECIFICATION SpecS
 CONSTANTS
-    Chan = {0, 1}
+    Chan = {0, 1, 2}
     Peer = {1, 2}
     MaxOps = 6
     Impl = "Design"
